@@ -33,7 +33,7 @@ class C12(Prop):
         "get_master_key / get_localized_key called with password lengths incl. divisors and non-divisors of 2^20, 2^20-1, 2^20, 2^20+1, > 2^20 and "
         "engine ids of 0..32 octets, compared with the reference; (c) malformed key material (lengths 0..64, unknown algorithm and key-type codes, "
         "empty password) through User/Md5Key/... and through the _fast socket classes and set_keys directly: a session or a documented exception, "
-        "never PanicException. non-trivial = at least one derived key was compared or one malformed input tried; distinct = hash of the inputs"
+        "never PanicException. also pass phrases that look like hex / config notation / numbers, the same octets under two key types, key and User objects shared between sessions. non-trivial = at least one derived key was compared or one malformed input tried; distinct = hash of the inputs"
     )
     quick_runs = 6000
     thorough_runs = 80000
